@@ -53,6 +53,10 @@ type Case struct {
 	Patterns []string
 	Features map[string]string
 	Note     string
+	// PostFiles are written after generation (hand-written glue / assertion files), relative to the case dir.
+	PostFiles map[string]string
+	// GluePkgs lists package directories (relative to the case dir) that expose Run(o *vref.Out) and are linked into the batch.
+	GluePkgs []string
 	// AllowImports lists extra import paths emitted files may legitimately use (C18).
 	AllowImports []string
 }
